@@ -273,8 +273,9 @@ def norm_pt(pt, ncyc, nq):
 
 
 # ---- C05: view consistency through the public read API -------------------------------
-def check_views(c: Circuit):
-    """Return a list of (symptom, detail) inconsistencies between the views."""
+def check_views(c: Circuit, tolerate_idle=False):
+    """Return a list of (symptom, detail) inconsistencies between the views.  With tolerate_idle an idle
+    cycle (known finding D6) is not reported, so that the remaining views of such a state are still judged."""
     bad = []
     n, ncyc = c.num_qudits, c.num_cycles
     grid = [[None] * n for _ in range(ncyc)]
@@ -288,7 +289,7 @@ def check_views(c: Circuit):
                 if id(op) not in seen:
                     seen[id(op)] = op
                     ops.append((cy, op))
-        if not seen:
+        if not seen and not tolerate_idle:
             bad.append(('idle_cycle', cy))
         for op in seen.values():
             cells = [q for q in range(n) if grid[cy][q] is op]
@@ -525,6 +526,35 @@ def region_verdict(s, region):
                 return 'disconnect'
             todo.append(k)
     return 'ok'
+
+
+def staggered_region(rng, s):
+    """2-3 qudits with different start cycles and overlapping intervals: straighten has gates to push back"""
+    n, rads, cycles = s
+    ncyc = len(cycles)
+    if ncyc < 3:
+        return None
+    qs = rng.sample(range(n), rng.randint(2, min(3, n)))
+    base = rng.randint(0, max(0, ncyc - 3))
+    starts = [min(ncyc - 1, base + rng.randint(0, 3)) for _ in qs]
+    if len(set(starts)) == 1:
+        starts[0] = max(0, starts[0] - 1)
+    top = max(starts)
+    return tuple(sorted((q, (st, min(ncyc - 1, top + rng.randint(0, 2)))) for q, st in zip(qs, starts)))
+
+
+def followup_appends(c: Circuit):
+    """After a structural call: append a single-qudit operation on every qudit; returns a list of
+    (symptom, detail) if a call fails with an internal error or the views disagree afterwards."""
+    for q in range(c.num_qudits):
+        g = 1 if c.radixes[q] == 2 else 7
+        out = apply_impl(c, ('append', (0, g, (q,), (), (c.radixes[q],), ())))
+        if out.kind == 'E':
+            return [('followup_append_failed', (q, out.val))]
+        bad = check_views(c, tolerate_idle=True)
+        if bad:
+            return [(b[0] + '_after_followup_append', (q, b[1])) for b in bad]
+    return []
 
 
 def nonconvex_region(rng, s):
@@ -822,6 +852,10 @@ def apply_impl(c: Circuit, call) -> Outcome:
             from bqskit.ir.region import CircuitRegion
             p = c.fold(CircuitRegion({q: iv for q, iv in call[1]}))
             return Outcome('N', p[0])
+        if k == 'straighten':
+            from bqskit.ir.region import CircuitRegion
+            c.straighten(CircuitRegion({q: iv for q, iv in call[1]}))
+            return Outcome('U')
         if k == 'copy':
             d = c.copy()
             c.become(d)
